@@ -162,6 +162,8 @@ func (p *c20Priv) extBuild(t c20ExtTarget, signer sdk.AccAddress, n int) (sdk.Ms
 			ibcclienttypes.NewHeight(2, 100), commitmenttypes.GetSDKSpecs(), []string{"upgrade", "upgradedIBCState"})
 		x.Plan = upgradetypes.Plan{Name: fmt.Sprintf("ibcvrf%d", n), Height: ctx.BlockHeight() + 2000}
 		x.UpgradedClientState = mustAny(cs.ZeroCustomFields())
+	case *ibcclienttypes.MsgRecoverClient:
+		x.SubjectClientId, x.SubstituteClientId = p.recoverPair()
 	case *ibctransfertypes.MsgUpdateParams:
 		x.Params = f.App.TransferKeeper.GetParams(ctx)
 	default:
